@@ -32,7 +32,9 @@ EXPLANATION = (
     ' '
     "R-C06.11 a version-2 signature is rebuilt from the stored dictionary alone: environment reads (get_app, get_app_upgrade_info, ...) inside deserialize() are reachable only on the sig_version == 1 branch (CFG reachability with the version tests' edges dropped)."
     ' '
-    'R-C06.12 module redirections of the legacy unpickler that test a dotted prefix also cover the package name itself.')
+    'R-C06.12 module redirections of the legacy unpickler that test a dotted prefix also cover the package name itself.'
+    ' '
+    'R-C06.13 connector and negation of a Q are stored independently, the connector whenever it differs from the default.')
 NOT_DECIDED = (
     'Round-trip equality for all values (nested Q/F/expressions, unicode, '
     'enums, legacy pickles) - needs execution.')
@@ -1072,7 +1074,66 @@ def r12_module_remaps_cover_the_package_itself(ctx):
            'module redirections include the package names themselves')
 
 
+def r13_q_state_stored_independently(ctx, rule_id='R-C06.13'):
+    """A Q object has a connector (AND default, OR, XOR) and a negation
+    flag; they are independent.  QSerialization.serialize_to_signature()
+    writes each under its own key: (a) no store is excluded by the test that
+    admits the other (`elif`), and (b) the connector is stored whenever it
+    differs from the *default* - a comparison with one particular connector
+    (`== Q.OR`) loses every other one (XOR).  The stored form is also what
+    IndexSignature / ConstraintSignature compare, so a dropped flag makes two
+    different conditions equal and the diff empty."""
+    ctx.rule(rule_id)
+    p = ctx.program
+    f = p.cls('serialization', 'QSerialization').methods[
+        'serialize_to_signature']
+    g = ctx.cfg(f)
+    stores = []
+    for node in g.nodes:
+        a = node.ast
+        if node.kind == 'stmt' and isinstance(a, ast.Assign):
+            for t in a.targets:
+                if isinstance(t, ast.Subscript) and const_str(t.slice) in (
+                        '_connector', '_negated'):
+                    stores.append((node, const_str(t.slice)))
+    ctx.floor('stores of Q state in QSerialization.serialize_to_signature',
+              len(stores), 2)
+    tests = [t for t in g.nodes if t.kind in ('test', 'operand')
+             and t.ast is not None]
+    bad = False
+    for t in tests:
+        on_t = [s_ for s_ in stores if g.guarded_by(s_[0], t, 'T')]
+        on_f = [s_ for s_ in stores if g.guarded_by(s_[0], t, 'F')]
+        if on_t and on_f:
+            bad = True
+            ctx.finding(f, on_f[0][0].ast, 'the %s of a Q is stored only '
+                        'when "%s" is false, i.e. never together with %s: a '
+                        'negated OR/XOR group is stored (and compared) '
+                        'without its negation' % (
+                            on_f[0][1], ' '.join(unparse(t.ast).split()),
+                            on_t[0][1]), key='q-state-exclusive')
+    for node, key in stores:
+        if key != '_connector':
+            continue
+        for t in tests:
+            if g.guarded_by(node, t, 'T') or g.guarded_by(node, t, 'F'):
+                if not any(isinstance(x, ast.Attribute) and
+                           x.attr == 'default' for x in ast.walk(t.ast)):
+                    bad = True
+                    ctx.finding(f, node.ast, 'the connector of a Q is stored '
+                                'only when "%s", not whenever it differs '
+                                'from the default: a connector this test '
+                                'does not name (XOR) is dropped and the '
+                                'condition is read back as AND' %
+                                ' '.join(unparse(t.ast).split()),
+                                key='q-connector-not-vs-default')
+    if not bad:
+        ctx.ok(f, 'connector and negation of a Q are stored independently, '
+               'the connector whenever it differs from the default')
+
+
 def run(ctx):
+    r13_q_state_stored_independently(ctx)
     r12_module_remaps_cover_the_package_itself(ctx)
     r11_current_format_read_from_stored_data_alone(ctx)
     r6_presence_not_value(ctx)
